@@ -358,6 +358,29 @@ pub fn step_out_publish_via_pending<const PR: u8>(max: u16) {
     core::mem::forget(st);
 }
 
+/// a release carried over from the previous connection (`clean()` returns one `Request::PubRel`
+/// per pending release; after `clean()` the tables are empty and inflight is 0, so here: an
+/// arbitrary INV state in which this id's release is NOT pending, window not full)
+pub fn step_out_pubrel<const PR: u8>(max: u16) {
+    let (mut st, pre) = arb_state(max, false);
+    let id: u16 = kani::any();
+    kani::assume(id >= 1 && id <= max);
+    kani::assume(!pre.rel[id as usize] && pre.inflight < max);
+    let r = st.handle_outgoing_packet(Request::PubRel(PubRel::new(id)));
+    let (ev, nev) = drain_events(&mut st);
+    let post = snapshot(&mut st, max);
+    if on(PR, 10) { assert!(matches!(&r, Ok(Some(Packet::PubRel(p))) if p.pkid == id), "C10: replayed release not handed to the network with its id") }
+    if on(PR, 10) { assert!(nev == 1 && is_out(&ev[0], Outgoing::PubRel(id)), "C10: PUBREL announcement") }
+    if on(PR, 2) { assert!(post.rel[id as usize], "C02: replayed release not pending again") }
+    check_held::<PR>(&pre, &post, None, None);
+    check_inv::<PR>(&post);
+    if on(PR, 7) { assert!(post.inflight == pre.inflight + 1, "C07: a pending release occupies a window slot until PUBCOMP") }
+    kani::cover!(pre.slot[id as usize].is_some() || max < 2, "release replayed while another publish is held");
+    core::mem::forget(r);
+    core::mem::forget(ev);
+    core::mem::forget(st);
+}
+
 pub fn step_out_subscribe<const PR: u8>(max: u16) {
     let (mut st, pre) = arb_state(max, false);
     kani::assume(crate::generated::admission::v4_takes_request(pre.inflight, max, pre.coll.is_some(), true));
@@ -896,6 +919,7 @@ macro_rules! v4_instances {
             sm_proof!(6, out_publish_m2, { step_out_publish::<$p>(2) });
             sm_proof!(7, out_publish_m3, { step_out_publish::<$p>(3) });
             sm_proof!(6, out_publish_via_pending_m2, { step_out_publish_via_pending::<$p>(2) });
+            sm_proof!(6, out_pubrel_m2, { step_out_pubrel::<$p>(2) });
             sm_proof!(6, out_subscribe_m1, { step_out_subscribe::<$p>(1) });
             sm_proof!(6, out_subscribe_m2, { step_out_subscribe::<$p>(2) });
             sm_proof!(6, out_ping_m2, { step_out_ping::<$p>(2) });
